@@ -82,6 +82,38 @@ mod body {
         );
     }
 
+    /// quick-tier form of `doc_ranges`: to_lsp_range only (two offset->position conversions)
+    pub fn doc_ranges_lite<const L: usize, const K: usize>(shape: [u8; K]) {
+        let cls = any_cls::<K>(&NL_A);
+        let mut buf = [0u8; L];
+        fill::<L, K>(&shape, &cls, &mut buf);
+        let text = unsafe { std::str::from_utf8_unchecked(&buf[..]) };
+        let m = model::<K>(&shape, &cls, true);
+        let li = LineIndex::parse(text);
+        let path = PathBuf::new();
+        let doc = LuaDocument::new(FileId { id: 0 }, &path, text, &li);
+        let i: usize = kani::any();
+        let j: usize = kani::any();
+        kani::assume(i <= j && j <= K);
+        let (s, e) = (m.cstart[i], m.cstart[j]);
+        let r = doc.to_lsp_range(TextRange::new(TextSize::from(s as u32), TextSize::from(e as u32)));
+        kani::cover!(true, "reached");
+        assert!(r.is_some(), "an in-document range has an LSP range");
+        let r = r.unwrap();
+        assert!(r.start <= r.end, "range start is before or equal to its end");
+        let (ls, le) = (m.line_of_idx(i), m.line_of_idx(j));
+        assert!((r.end.line as usize) < m.line_count(), "range end line exists in the document");
+        assert!(r.start.line as usize == ls && r.end.line as usize == le, "range lines are the lines of its offsets");
+        let cs = m.utf16_between(m.line_start_idx(ls), i);
+        let ce = m.utf16_between(m.line_start_idx(le), j);
+        assert!(r.start.character as usize == cs, "range start character counts UTF-16 code units");
+        assert!(r.end.character as usize == ce, "range end character counts UTF-16 code units");
+        assert!(
+            ce <= m.utf16_between(m.line_start_idx(le), m.line_end_idx(le)),
+            "range end character is within its line"
+        );
+    }
+
     /// a client range with any missing line converts to nothing; otherwise to an ordered pair of
     /// in-document offsets (each clamped to its line)
     pub fn doc_client_range<const L: usize, const K: usize>(shape: [u8; K]) {
